@@ -19,7 +19,7 @@ BUILTINS = {"len", "int", "float", "abs", "min", "max", "range", "sorted", "all"
             "print", "bool", "zip", "enumerate", "round"}
 SPEC_BUILTINS = {"forall", "forall2", "exists", "implies", "iff", "ite", "old", "seq_eq", "is_none", "opt_val",
                  "sqrt", "Sum", "row", "real", "floor", "is_perm_rows", "count_true", "uf", "ufa", "min2", "max2",
-                 "absr", "lo_of", "sq", "trunc", "SumRange", "store"}
+                 "absr", "lo_of", "sq", "trunc", "SumRange", "store", "log"}
 
 _ufs = {}
 
@@ -780,6 +780,28 @@ def lib_maximum_reduce(ev, args, kw, st, node):
     return Seq.from_fn(seqs[0].n, REAL, elem)
 
 
+@lib("numpy.log", "math.log")
+def lib_log(ev, args, kw, st, node):
+    """natural logarithm: an uninterpreted function (only congruence is known)  [A]"""
+    v = args[0]
+    if isinstance(v, Seq):
+        return Seq.from_fn(v.n, REAL, lambda k: Num(uf_real("log", as_num(v.at(k)).real())))
+    return Num(uf_real("log", as_num(v).real()))
+
+
+@lib("numpy.maximum")
+def lib_maximum(ev, args, kw, st, node):
+    a, b = args
+    if isinstance(a, Seq) and isinstance(b, Seq):
+        ev.need("broadcast: equal lengths", st, a.n == b.n, node)
+        def elem(k):
+            x, y = as_num(a.at(k)).real(), as_num(b.at(k)).real()
+            return Num(z3.If(x >= y, x, y))
+        return Seq.from_fn(a.n, REAL, elem)
+    x, y, _ = num_pair(as_num(a), as_num(b))
+    return Num(z3.If(x >= y, x, y))
+
+
 @lib("numpy.all")
 def lib_all(ev, args, kw, st, node):
     v = args[0]
@@ -994,6 +1016,11 @@ def sp_sqrt(ev, node, st):
     if not any(values.occurs(v, x) for v in values.SCOPE):
         st.pc.append(z3.Implies(x >= 0, z3.And(r >= 0, r * r == x)))     # defining property of the real square root
     return Num(r)
+
+
+@spec("log")
+def sp_log(ev, node, st):
+    return Num(uf_real("log", as_num(ev.ev(node.args[0], st)).real()))
 
 
 @spec("real")
